@@ -157,6 +157,8 @@ func init() {
 			{Name: "long", TShards: 4, Run: c03Long},
 			{Name: "sizes", TShards: 6, Run: c03Sizes},
 			{Name: "prefixes", Run: prefixUnit("sam", false, 0)},
+			{Name: "edges", Run: edgeUnit("sam")},
+			{Name: "fieldlens", TShards: 4, Run: lengthUnit("sam")},
 		},
 	})
 }
